@@ -191,6 +191,14 @@ C17_NONDET_OK = {}
 # ---------------------------------------------------------------- C10 / C11 CHECKED decoders: (decoder, [validators (alternatives as list)], what they enforce)
 _C = 'midnight_curves::'
 _FQ, _FP = _C + 'bls12_381::fq::Fq', _C + 'bls12_381::fp::Fp'
+# leaf functions that compare a candidate against the field modulus (C10.R2)
+C10_VALIDATORS = [
+    _C + 'bls12_381::fp::is_valid',
+    _C + 'bls12_381::fp::is_valid_u64',
+    _C + 'bls12_381::fq::is_valid',
+    _C + 'curve25519::fp::Fp::is_less_than_modulus',
+    _C + 'jubjub::fr::Fr::from_bytes',
+]
 C10_DECODERS = [
     (_FQ + '::from_bytes_le', ['blst_scalar_fr_check'], 'scalar < r'),
     (_FQ + '::from_bytes_be', ['blst_scalar_fr_check'], 'scalar < r'),
@@ -274,13 +282,13 @@ C09_E2_EXCEPTIONS = {
     'midnight_circuits::verifier::msm::AssignedMsm::constrain_as_public_input_with_committed_scalars|write:a':
         dict(containment='unused', reason='dead debugging code: the leaked scalar is never read'),
     'midnight_circuits::ecc::foreign::ecc_chip::ForeignEccChip::multi_select|capture:selector_idx':
-        dict(containment='index-only', reason='documented hack: the witness index only selects which table point supplies the *values* witnessed next to the lookup (enable_lookup = true assigns fresh cells, no copy constraint)'),
+        dict(containment='index-only', consumers=('::fill_dynamic_lookup_row',), reason='documented hack: the witness index only selects which table point supplies the *values* witnessed next to the lookup (enable_lookup = true assigns fresh cells, no copy constraint)'),
     'midnight_circuits::ecc::foreign::ecc_chip::ForeignEccChip::multi_select|write:selector_idx':
-        dict(containment='index-only', reason='see capture:selector_idx'),
+        dict(containment='index-only', consumers=('::fill_dynamic_lookup_row',), reason='see capture:selector_idx'),
     'midnight_circuits::ecc::foreign::ecc_chip::ForeignEccChip::k_out_of_n_points|capture:unwrapped_selected_idxs':
-        dict(containment='iter-index', reason='same hack as multi_select: indices only select the values witnessed next to the lookup'),
+        dict(containment='iter-index', consumers=('::fill_dynamic_lookup_row',), reason='same hack as multi_select: indices only select the values witnessed next to the lookup'),
     'midnight_circuits::ecc::foreign::ecc_chip::ForeignEccChip::k_out_of_n_points|write:unwrapped_selected_idxs':
-        dict(containment='iter-index', reason='see capture:unwrapped_selected_idxs'),
+        dict(containment='iter-index', consumers=('::fill_dynamic_lookup_row',), reason='see capture:unwrapped_selected_idxs'),
     '<midnight_circuits::map::map_gadget::MapGadget as midnight_circuits::instructions::map::MapInstructions>::init|capture:init_map':
         dict(containment='cpu-state', types=['map::cpu::MapMt'], reason='off-circuit Merkle-map state kept next to the assigned root; only feeds later witness values'),
     '<midnight_circuits::map::map_gadget::MapGadget as midnight_circuits::instructions::map::MapInstructions>::init|write:init_map':
